@@ -207,20 +207,17 @@ fn call_name(fmt: &str, c: usize) -> String {
 /// sheet, range by name == range by index == the entry of worksheets(); an unknown name is an error; formula reads do not
 /// report a listed worksheet as missing. The files are whatever the repository ships (a second, independent alphabet of
 /// physical encodings written by real applications); files that do not open are skipped and counted.
+/// sheet list and first sheet of a reader, for comparing two ways of opening the same bytes
+fn brief<RS: std::io::Read + std::io::Seek, R: Reader<RS>>(w: &mut R) -> String where R::Error: std::fmt::Debug {
+    format!("{:?} {:?}", w.sheet_names(), w.worksheet_range(S[0]).map(|r| range_digest(&r)).map_err(|e| format!("{e:?}").chars().take(40).collect::<String>()))
+}
+
 fn corpus_paths(rep: &Report) {
-    let root = std::env::var("VERIF_REPO").unwrap_or_else(|_| "/repo".into());
-    let mut files: Vec<std::path::PathBuf> = match std::fs::read_dir(format!("{root}/tests")) {
-        Ok(d) => d.filter_map(|e| e.ok().map(|e| e.path())).filter(|p| matches!(p.extension().and_then(|e| e.to_str()), Some("xls" | "xlsx" | "xlsm" | "xlsb" | "ods" | "xla" | "xlam"))).collect(),
-        Err(_) => vec![],
-    };
-    files.sort();
+    let files = crate::props::corpus::fixtures(&crate::props::corpus::ALL);
     let opened = std::sync::atomic::AtomicU64::new(0);
     let sheets_checked = std::sync::atomic::AtomicU64::new(0);
-    files.par_iter().for_each(|path| {
-        let fname = path.file_name().unwrap().to_string_lossy().to_string();
+    files.par_iter().for_each(|(fname, bytes)| {
         crate::engine::crumb::set_case(&format!("C07 fixture {fname}"));
-        let Ok(bytes) = std::fs::read(path) else { return };
-        if bytes.is_empty() { return; }
         let replay = || Replay { json: json!({"fixture": fname}), files: vec![] };
         let r = guarded(|| -> Result<Vec<(String, String)>, String> {
             let mut wb = match open_workbook_auto_from_rs(Cursor::new(bytes.clone())) { Ok(w) => w, Err(_) => return Ok(vec![("skipped".into(), String::new())]) };
@@ -375,6 +372,23 @@ pub fn check(rep: &Report) {
         if !b(6).starts_with("Err(") || !b(6).contains("NotFound") { rep.fail(&format!("{fmt}/unknown-sheet"), &format!("range(\"nope\") gave {}", b(6)), || replay(&[6], "unknown")); }
         if !b(10).starts_with("Err(") { rep.fail(&format!("{fmt}/unknown-sheet-formula"), &format!("formula(\"nope\") gave {}", b(10)), || replay(&[10], "unknown")); }
         if b(5) != "None" { rep.fail(&format!("{fmt}/range_at-out-of-range"), &format!("range_at(7) gave {}", b(5)), || replay(&[5], "index")); }
+        // path-based detection: the workbook under every file extension of its own family and under extensions the table does not
+        // know (content detection) opens as the same workbook
+        {
+            let dir = format!("{}/target/run/c07-ext-{}-{fmt}", crate::verif_root(), std::process::id());
+            let _ = std::fs::create_dir_all(&dir);
+            let exts: &[&str] = match *fmt { "xlsx" => &["xlsx", "xlsm", "xlam", "xltx", "xltm", "XLSX", "bin", ""], "xlsb" => &["xlsb", "XLSB", "bin", ""], "xls" => &["xls", "xla", "xlt", "XLS", "dat", ""], _ => &["ods", "ots", "ODS", "zip", ""] };
+            for ext in exts {
+                let path = if ext.is_empty() { format!("{dir}/book") } else { format!("{dir}/book.{ext}") };
+                if std::fs::write(&path, &bytes).is_err() { continue; }
+                let r = guarded(|| match calamine::open_workbook_auto(&path) { Ok(mut wb) => brief(&mut wb), Err(e) => format!("Err({})", format!("{e:?}").chars().take(80).collect::<String>()) });
+                let own = guarded(|| { let mut wb = open(fmt, &bytes, false).unwrap(); match &mut wb { Wb::Xlsx(w) => brief(w), Wb::Xlsb(w) => brief(w), Wb::Xls(w) => brief(w), Wb::Ods(w) => brief(w), Wb::Auto(w) => brief(w) } });
+                rep.eval(1);
+                if r != own { rep.fail(&format!("{fmt}/open-by-path/{}", if ext.is_empty() { "no-extension" } else { ext }), &format!("open_workbook_auto(\"book.{ext}\") gave {r:?}, the {fmt} reader {own:?}"), || replay(&[12], "path")); }
+                let _ = std::fs::remove_file(&path);
+            }
+            let _ = std::fs::remove_dir(&dir);
+        }
         // auto-detected reader == own reader for every common call under every option
         for o in 0..3 { for c in 0..COMMON.len() {
             let r = guarded(|| { let mut wb = open(fmt, &bytes, true)?; do_call(&mut wb, COMMON.len() + o); Ok::<String, String>(do_call(&mut wb, c)) });
